@@ -279,8 +279,30 @@ def parallel_map(fn, items, nproc):
     if nproc <= 1 or len(items) <= 1:
         return [_guard(fn, it) for it in items]
     ctx = mp.get_context("fork")
-    with ctx.Pool(processes=min(nproc, len(items))) as pool:
-        return pool.starmap(_guard, [(fn, it) for it in items], chunksize=1)
+    # a worker that dies abruptly (a native library aborting the process) makes multiprocessing.Pool lose the task and
+    # wait forever; ProcessPoolExecutor reports it, the unfinished items are then re-run (twice at most) in a new pool
+    from concurrent.futures import ProcessPoolExecutor
+    from concurrent.futures.process import BrokenProcessPool
+
+    results = [None] * len(items)
+    todo = list(range(len(items)))
+    for attempt in range(3):
+        if not todo:
+            break
+        with ProcessPoolExecutor(max_workers=min(nproc, len(todo)), mp_context=ctx) as ex:
+            futs = {k: ex.submit(_guard, fn, items[k]) for k in todo}
+            again = []
+            for k, f in futs.items():
+                try:
+                    results[k] = f.result()
+                except BrokenProcessPool:
+                    again.append(k)
+                except Exception:
+                    results[k] = ("error", traceback.format_exc())
+        todo = again
+    for k in todo:
+        results[k] = ("error", "worker process died three times (native crash) while running this item")
+    return results
 
 
 def _guard(fn, it):
